@@ -32,11 +32,16 @@ P(act, win) == [act |-> act, win |-> win]
 PlansGeneral == {P({"w1", "w2", "o1", "o2", "s1"}, "any"), P({"w2", "o1", "s2"}, "any"), P({"w1", "o2", "j1"}, "any"),
                  P({"o1", "s2", "j2"}, "any"), P({"w1", "o1", "j3"}, "any"), P({"w1", "w2", "o2"}, "any"),
                  P({"s1", "s2", "o1"}, "any"), P({"w1", "w2", "o1", "o2", "s1"}, "win"), P({"w2", "o1", "o2", "j2"}, "win")}
-\* ... and the schedules aimed at the two recorded deviations
+\* ... and the schedules aimed at the windows of the two repaired defects (a blocking job's completion between the two
+\* set_awake of poll; completion entries in the queue when poll_blocking delivers an entry that wakes nobody)
 PlansTargeted == {P({"o1", "j1"}, "dev1"), P({"o2", "j2"}, "dev1"), P({"w1", "o1", "j3"}, "dev2")}
 
-VARIABLES hist, plan
-gvars == <<allvars, hist, plan>>
+VARIABLES hist, plan,
+          hit1,        \* the schedule passed through the window of fixed finding C03-compat-blocking-completion-wake-wiped:
+                       \* flush() reported work ONLY because an entry waited in the completed channel
+          hit2         \* ... of C03-compat-iour-poll-blocking-skips-drain: poll_blocking delivered entries while completion
+                       \* entries were in the queue (the drain that follows is what the old code skipped)
+gvars == <<allvars, hist, plan, hit1, hit2>>
 Act == plan.act
 Has(x) == x \in Act
 JobLast == plan.win = "dev1"
@@ -79,7 +84,7 @@ FlushFirst == pcR = "flush" /\ (XFlushArm \/ XFlush \/ XFlushReset)
 WillBlock == xpc' = "parked" /\ ~((IF host = "tokio" THEN hReady' \/ (hEdge' /\ Level') ELSE Level') \/ TimeoutNow')
 
 GInit ==
-  /\ plan \in Plans /\ hist = <<>>
+  /\ plan \in Plans /\ hist = <<>> /\ hit1 = FALSE /\ hit2 = FALSE
   \* Wakeup!Init, a waking thread that does not exist has finished
   /\ flag = IDLE /\ efd = FALSE /\ armed = (Driver = "poll") /\ sqNotif = FALSE /\ needPush = (Driver = "iour")
   /\ cq = 0 /\ batch = 0 /\ owed = 0 /\ syncq = <<>> /\ pending = 0
@@ -132,6 +137,10 @@ GNext ==
                    \/ (pcR # "flush" /\ (XFlush \/ XFlushReset)) \/ XFlushLeave \/ ADecide
                    \/ AWakeReady \/ (~(host = "tokio" /\ hReady) /\ AWakeTimeout)   \* a pending event wins over the timer
                    \/ XPollBlocking \/ XPollNoBlocking \/ XArm \/ XEnter \/ XLeaveTimedOut \/ XLeave \/ XClearN \/ XEntries \/ XTimers
+  \* (after the step: the primed variables are known)
+  /\ hit1' = (hit1 \/ (xpc = "decide" /\ xpc' = "wait" /\ hot = <<>> /\ ~extNotified /\ hasC))
+  /\ hit2' = (hit2 \/ (xpc = "pollb" /\ xpc' # "pollb" /\ Driver = "iour" /\ SentUntaken # {}
+                        /\ (cq' > 0 \/ \E o \in Ops : opSt[o] = "cqe")))
 GSpec == GInit /\ [][GNext]_gvars
 
 \* nothing can move any more although the future is not ready: the model's prediction of a lost completion
@@ -144,5 +153,5 @@ Prog == [wakers |-> [w \in {WName(x) : x \in Wakers} \cap Act |-> Target[CHOOSE 
          jobs |-> [j \in Jobs \cap Act |-> Owner[j]], tasks |-> TaskSeq]
 EmitInv == Done => PrintT(<<"REPLAY", ToJson([driver |-> Driver, host |-> host, prog |-> Prog, win |-> plan.win,
                                               complete |-> Finished, dead |-> Dead,
-                                              dev1 |-> BlockingDeviation, dev2 |-> SkippedDeviation, steps |-> hist])>>)
+                                              dev1 |-> hit1, dev2 |-> hit2, steps |-> hist])>>)
 =============================================================================
